@@ -362,6 +362,75 @@ func Run(ctx *core.Ctx) {
 			}(ri, run)
 		}
 		wg.Wait()
+		// zero padding AND a torn tail in the same file: NULs at the head, between
+		// commands or in an earlier packet, then a cut inside a later command
+		ncombo := ctx.Pick(24, 160)
+		for ci := 0; ci < ncombo; ci++ {
+			wg.Add(1)
+			sem <- struct{}{}
+			go func(ci int) {
+				defer wg.Done()
+				defer func() { <-sem }()
+				rr := ctx.SubRng(int64(li*1000 + ci + 40000))
+				run := []int{1, 2, 7, 100, 4096, 65535, 70000}[rr.Intn(7)]
+				ai := rr.Intn(len(ends) - 1) // boundary index where the zeros go (0 = head of file)
+				at := ends[ai]
+				content := append(append(append([]byte{}, logb[:at]...), make([]byte, run)...), logb[at:]...)
+				// cut strictly inside a command that starts after the zero run
+				ei := ai + rr.Intn(len(ends)-1-ai)
+				cmdStart, cmdEnd := ends[ei]+run, ends[ei+1]+run
+				if cmdEnd-cmdStart < 2 {
+					return
+				}
+				t := cmdStart + 1 + rr.Intn(cmdEnd-cmdStart-1)
+				content = content[:t]
+				_, b, okp := aoflog.Parse(content)
+				if !okp {
+					ctx.Inconclusive("combo content does not parse")
+					return
+				}
+				// the torn command starts after any NULs that follow the last complete command
+				tornStart := b
+				for tornStart < len(content) && content[tornStart] == 0 {
+					tornStart++
+				}
+				origB := b
+				if b > at {
+					origB = b - run
+				}
+				res, sec := startOn(bin, content, true)
+				ctx.Eval(1)
+				replay := map[string]any{"log": li, "zeros": run, "zeros_at": at, "cut": t, "boundary": b, "torn_command_starts": tornStart}
+				if res.err != nil {
+					if res.diag == "start" {
+						ctx.Violation("start-fails-padded-torn", fmt.Sprintf("log %d with %d zero bytes at %d and cut at %d: server does not start: %v", li, run, at, t, res.err), replay)
+					} else {
+						ctx.Inconclusive("harness: " + res.err.Error())
+					}
+					return
+				}
+				if int(res.size) != b && int(res.size) != tornStart {
+					ctx.Violation("size-after-repair-padded", fmt.Sprintf("log %d with %d zero bytes at %d and cut at %d: file size after start %d; the torn command starts at %d (last complete command ends at %d)", li, run, at, t, res.size, tornStart, b), replay)
+					return
+				}
+				ref, err := getRef(origB)
+				if err != nil {
+					ctx.Inconclusive("reference start: " + err.Error())
+					return
+				}
+				if d := dump.Diff(ref, res.state); d != "" {
+					ctx.Violation("state-after-repair-padded", fmt.Sprintf("log %d with %d zero bytes at %d and cut at %d: recovered state differs from the clean-cut load: %s", li, run, at, t, d), replay)
+					return
+				}
+				if strings.HasPrefix(sec, "VIOLATION") {
+					ctx.Violation("write-after-repair-lost-padded", fmt.Sprintf("log %d with %d zero bytes at %d and cut at %d: %s", li, run, at, t, sec), replay)
+					return
+				}
+				ctx.Count("zero_run_plus_tear_cases", 1)
+				ctx.Distinct(fmt.Sprintf("%d@z%d+cut%d", li, run, t))
+			}(ci)
+		}
+		wg.Wait()
 		if li == 0 {
 			ctx.Sample(map[string]any{"log_bytes": len(logb), "commands": len(entries), "offsets_tried": len(list), "first_command": entries[0].Args, "has_big_value": bytes.Contains(logb, []byte("$6")), "boundaries": len(refs)})
 		}
